@@ -7,6 +7,7 @@ import (
 	"crypto"
 	"crypto/ecdsa"
 	"crypto/ed25519"
+	"crypto/rand"
 	"crypto/rsa"
 	"crypto/x509"
 	_ "embed"
@@ -101,3 +102,26 @@ var SupportedKinds = []string{"rsa2048", "rsa3072", "rsa4096", "p256", "p384", "
 
 // AllKinds is every key kind in the pool.
 var AllKinds = []string{"rsa1024", "rsa1536", "rsa2048", "rsa2560", "rsa3072", "rsa3584", "rsa4096", "p224", "p256", "p384", "p521", "ed25519"}
+
+var (
+	tinyMu  sync.Mutex
+	tinyRSA = map[int]*Key{}
+)
+
+// TinyRSA returns a (process-wide cached) RSA key with a modulus of the given
+// bit size - 256 or 384, sizes that coincide with supported EC key sizes. Such
+// keys are generated on the spot: they are good for nothing but being certified.
+func TinyRSA(bits int) *Key {
+	tinyMu.Lock()
+	defer tinyMu.Unlock()
+	if k, ok := tinyRSA[bits]; ok {
+		return k
+	}
+	priv, err := rsa.GenerateKey(rand.Reader, bits)
+	if err != nil {
+		return nil
+	}
+	k := &Key{Name: fmt.Sprintf("rsa%d-generated", bits), Kind: fmt.Sprintf("rsa%d", bits), Priv: priv}
+	tinyRSA[bits] = k
+	return k
+}
